@@ -44,6 +44,13 @@ func (ex *Exec) eval(st *State, e ast.Expr, k func(*State, Val)) {
 		st.assume(not(eq(r, "0")))
 		clo := &Closure{Lit: e, Pkg: ex.pkg}
 		ex.escaped[e] = true
+		if ord, ok := ex.cloOrd[e]; ok && ex.fc != nil {
+			if ls := ex.fc.Closures[ord]; ls != nil && len(ls.Ensures) > 0 && !ex.cloVerified[e] {
+				ex.cloVerified[e] = true
+				ex.cloHit[ord] = true
+				ex.verifyClosure(st.clone(), clo, ord, ls)
+			}
+		}
 		k(st, Val{T: r, S: SRef, GoT: ex.typeOf(e), Clo: clo})
 	case *ast.SelectorExpr:
 		if sel := ex.info.Selections[e]; sel != nil {
@@ -722,6 +729,21 @@ func (ex *Exec) resultVals(st *State, sig *types.Signature, hint string) []Val {
 // unknownCall: no contract. Results are arbitrary, the heap and everything
 // reachable by the callee is havocked.
 func (ex *Exec) unknownCall(st *State, pc *preparedCall, what string, k func(*State, []Val)) {
+	if pc.fn == nil && funcValueIsSink(pc.sig) {
+		// a callback returning error is treated as an I/O sink: it raises ghost.fail iff it reports an error
+		ex.intrinsics["calls through function values returning error: ghost.fail == old(ghost.fail) || err != nil (callbacks report their own failures)"] = true
+		ex.heapHavocAll(st)
+		ex.havocEscaped(st, pc)
+		res := ex.resultVals(st, pc.sig, "callback")
+		if g, ok := ex.cs.Ghost["fail"]; ok {
+			oldF := ex.ghostGet(st, g)
+			ex.ghostHavoc(st, "fail")
+			newF := ex.ghostGet(st, g)
+			st.assume(app("=", newF.T, or(oldF.T, not(eq(res[len(res)-1].T, "0")))))
+		}
+		k(st, res)
+		return
+	}
 	ex.uncontracted[what] = true
 	ex.heapHavocAll(st)
 	ex.havocEscaped(st, pc)
@@ -731,6 +753,13 @@ func (ex *Exec) unknownCall(st *State, pc *preparedCall, what string, k func(*St
 		}
 	}
 	k(st, ex.resultVals(st, pc.sig, shortKey(what)))
+}
+
+func funcValueIsSink(sig *types.Signature) bool {
+	if sig == nil || sig.Results().Len() == 0 {
+		return false
+	}
+	return isErrorType(sig.Results().At(sig.Results().Len() - 1).Type())
 }
 
 func shortKey(k string) string {
@@ -844,6 +873,7 @@ func (ex *Exec) applyContract(st *State, fc *FuncContract, pc *preparedCall, k f
 		return
 	}
 	pre := st.clone()
+	preEnv := ex.calleeEnv(pre, fc, fn, pc.recv, pc.args)
 	ex.havocModifies(st, fc, pc)
 	var results []Val
 	if fc.Pure {
@@ -863,6 +893,7 @@ func (ex *Exec) applyContract(st *State, fc *FuncContract, pc *preparedCall, k f
 	}
 	post := ex.calleeEnv(st, fc, fn, pc.recv, pc.args)
 	post.old = pre
+	post.oldNames = preEnv.names
 	for i, nm := range resultNames(fc, sig) {
 		post.names[nm] = results[i]
 	}
